@@ -27,7 +27,7 @@ def setup_worker():
 
 
 def shards(tier, seed):
-    n = 200 if tier == "quick" else 4000
+    n = 200 if tier == "quick" else 20000
     return [dict(seed=seed * 1000 + i, n=n) for i in range(16)]
 
 
@@ -35,7 +35,29 @@ def gen(desc):
     rng = random.Random(desc["seed"])
     for _ in range(desc["n"]):
         c = rbgen.gen_case(rng, overlap=rng.random() < 0.5)
+        c["oc"] = with_negated_rows(rng, c["new"], REV.get(c["vendor"], "no"))
         yield c
+
+
+REV = {"huawei": "undo", "cisco": "no", "arista": "no", "nexus": "no", "b4com": "no", "routeros": "remove"}
+
+
+def with_negated_rows(rng, tree, rev):
+    """the config handed to order_config: the target config plus rows in the vendor's negated form (device configs
+    do contain them: 'no shutdown', 'undo portswitch'), often several per block"""
+    out = []
+    for row, ch in tree:
+        out.append([row, with_negated_rows(rng, ch, rev)])
+    k = rng.choice([0, 0, 2, 3])
+    have = {r for r, _ in out}
+    for _ in range(k):
+        base = rng.choice([r for r, _ in tree]) if tree and rng.random() < 0.6 else \
+            " ".join(rng.choice(rbgen.NOUNS + rbgen.VALS) for _ in range(rng.randint(1, 2)))
+        neg = rev + " " + base
+        if neg not in have:
+            have.add(neg)
+            out.insert(rng.randint(0, len(out)), [neg, []])
+    return out
 
 
 def run_patch(case, sort=True, old=None, new=None):
@@ -65,7 +87,7 @@ def impl(case):
     pt, pre, rb = run_patch(case)
     if pt is None:
         return {"err": "AssertionError"}
-    oc = patching.Orderer(rb["ordering"], case["vendor"]).order_config(rbgen.to_odict(case["new"]))
+    oc = patching.Orderer(rb["ordering"], case["vendor"]).order_config(rbgen.to_odict(case.get("oc", case["new"])))
     return {"patch": rbgen.dump_patch(pt), "ordered": rbgen.to_list(oc)}
 
 
@@ -73,7 +95,7 @@ def requests(case):
     rbgen.setup()
     return [rbgen.job_request("rb.patch", case, do_commit=True, mode="device"),
             dict(op="rb.order_config", vendor=rbgen.vendor_info(case["vendor"]), ordering=rbgen.raw_ordering(case["otext"]),
-                 config=case["new"])]
+                 config=case.get("oc", case["new"]))]
 
 
 def model(case, resp):
@@ -144,6 +166,67 @@ def top_rank_check(case, pt, out):
             out.append(dict(sig="rank-without-rule", what="command %r matches no ordering rule but has order %r" % (row, key[0])))
 
 
+def neg_of(row, rev):
+    return row[len(rev) + 1:] if row.startswith(rev + " ") else rev + " " + row
+
+
+def ref_effective_children(rules, row, rev):
+    """reference reading of the rules that order the children of a block command: in FILE ORDER, every %global rule
+    itself and the child rules of every rule matching the block command (direct or negated form)"""
+    out = []
+    for r in rules:
+        if r["global"]:
+            out.append(r)
+        d = c07.ref_match(r["row"], row)
+        n = c07.ref_match(neg_of(r["row"], rev), row)
+        if d == "outside" or n == "outside":
+            return None
+        if d is not None or n is not None:
+            out.extend(x for x in r["children"] if x["normal"])
+    # odict(children): first position, last value
+    seen, res = {}, []
+    for x in out:
+        if x["raw_rule"] in seen:
+            res[seen[x["raw_rule"]]] = x
+        else:
+            seen[x["raw_rule"]] = len(res)
+            res.append(x)
+    return res
+
+
+def nested_rank_check(case, pt, out):
+    """at every depth: a command matched by exactly one rule of the effective rule list has that rule's index as |order|"""
+    oraw = [r for r in rbgen.raw_ordering(case["otext"]) if r["normal"]]
+    info = rbgen.vendor_info(case["vendor"])
+    rev = info["reverse"]
+
+    def plain(rules):
+        return all(not r["order_reverse"] and not r["scope"] and plain([x for x in r["children"] if x["normal"]]) for r in rules)
+    if not plain(oraw):
+        return
+
+    def walk(items, rules, path):
+        for row, ch, key in items:
+            hits = []
+            for i, r in enumerate(rules):
+                d = c07.ref_match(r["row"], row)
+                n = c07.ref_match(neg_of(r["row"], rev), row)
+                if d == "outside" or n == "outside":
+                    return
+                if d is not None or n is not None:
+                    hits.append(i)
+            if len(hits) == 1 and key[0] not in (hits[0], -hits[0]) and row != info["exit"]:
+                out.append(dict(sig="rank-not-rule-index",
+                                what="command %r in block %r matches only rule #%d (%r) of the rules ordering that block but its "
+                                     "order is %r" % (row, path, hits[0], rules[hits[0]]["raw_rule"], key[0])))
+                return
+            if ch:
+                sub = ref_effective_children(rules, row, rev)
+                if sub is not None:
+                    walk(ch, sub, path + (row,))
+    walk(pt, oraw, ())
+
+
 def removal_first_check(case, pt, pre, rb, out):
     """one rule and key: removal before re-creation (top level), unless an %order_reverse rule pins the removal"""
     from annet.annlib.types import Op
@@ -180,7 +263,16 @@ def independence_check(case, pt, out, rng):
     a = [r for r, _, _ in pt]
     b = [str(i.row) for i in pt2.itms]
     if not common_subseq_order(a, b):
-        out.append(dict(sig="order-depends-on-unrelated-row",
+        keys = dict((r, tuple(k)) for r, _, k in pt)
+        ca = [r for r in a if r in b]
+        cb = [r for r in b if r in a]
+        flipped = [(x, y) for i, x in enumerate(ca) for y in ca[i + 1:] if cb.index(y) < cb.index(x)]
+        sig = "order-depends-on-unrelated-row"
+        if flipped and all(keys[x] == keys[y] for x, y in flipped):
+            # commands of equal rank (same order, same rule): their order is the order of the diff entries, whose
+            # indices shift with unrelated rows (removed rows carry old indices, added rows new ones)
+            sig = "equal-rank-commands-follow-diff-position"
+        out.append(dict(sig=sig,
                         what="removing the unchanged top-level row %r from old and new changes the relative order of the "
                              "remaining commands: %r vs %r" % (victim, a, b)))
 
@@ -192,7 +284,7 @@ def unordered(t):
 def order_config_checks(case, r, rb, out):
     from annet.annlib import patching
     oc = r["ordered"]
-    if unordered(oc) != unordered(case["new"]):
+    if unordered(oc) != unordered(case.get("oc", case["new"])):
         out.append(dict(sig="order-config-not-permutation", what="order_config lost, duplicated or moved a line across blocks"))
         return
     again = patching.Orderer(rb["ordering"], case["vendor"]).order_config(rbgen.to_odict(oc))
@@ -210,7 +302,7 @@ def order_config_checks(case, r, rb, out):
                 if m == "outside" or m is not None:
                     return True
         return row == info["exit"]
-    free_in = [row for row, _ in case["new"] if not mentioned(row)]
+    free_in = [row for row, _ in case.get("oc", case["new"]) if not mentioned(row)]
     free_out = [row for row, _ in oc if not mentioned(row)]
     # rows starting with the negation word sort first (direct=False): compare within each class
     pre_ = info["reverse"]
@@ -235,6 +327,7 @@ def oracle(case, r):
     else:
         check_sorted(pt, uns, (), out)
     top_rank_check(case, pt, out)
+    nested_rank_check(case, pt, out)
     removal_first_check(case, pt, pre, rb, out)
     independence_check(case, pt, out, random.Random(len(case["ptext"]) * 7 + len(pt)))
     order_config_checks(case, r, rb, out)
